@@ -114,11 +114,21 @@ pub fn essence(resp: &Value) -> Essence {
     });
     let route = resp.get("route").cloned().unwrap_or(Value::Null);
     let (cost, state) = match &route {
-        Value::Array(rs) => (Value::Array(rs.iter().map(|r| r.get("cost").cloned().unwrap_or(Value::Null)).collect()), Value::Array(rs.iter().map(|r| r.get("traversal_summary").cloned().unwrap_or(Value::Null)).collect())),
+        // k-shortest-path responses: which alternatives follow the best route depends on the iteration
+        // order of hash maps inside the algorithm (also for a query run alone), so only the first,
+        // best route is comparable
+        Value::Array(rs) => (rs.first().and_then(|r| r.get("cost")).cloned().unwrap_or(Value::Null), rs.first().and_then(|r| r.get("traversal_summary")).cloned().unwrap_or(Value::Null)),
         Value::Object(_) => (route.get("cost").cloned().unwrap_or(Value::Null), route.get("traversal_summary").cloned().unwrap_or(Value::Null)),
         _ => (Value::Null, Value::Null),
     };
     Essence { request, request_value, error, cost, state, has_route: !route.is_null() }
+}
+
+/// the kind of an error: its first words. The full text may name whichever offending item a
+/// hash-ordered map yielded first, so it is not comparable across executions.
+pub fn norm_err(s: &str) -> String {
+    let words: Vec<&str> = s.split(|c: char| !c.is_alphanumeric() && c != '_').filter(|w| !w.is_empty()).take(6).collect();
+    words.join(" ")
 }
 
 pub fn essence_equal(a: &Essence, b: &Essence, tol: f64) -> Result<(), String> {
@@ -128,7 +138,8 @@ pub fn essence_equal(a: &Essence, b: &Essence, tol: f64) -> Result<(), String> {
     match (&a.error, &b.error) {
         (None, None) => {}
         (Some(x), Some(y)) => {
-            if x != y {
+            // the property compares "success or error"; we also compare the kind of error
+            if norm_err(x) != norm_err(y) {
                 return Err(format!("error text differs: {:?} vs {:?}", x, y));
             }
         }
